@@ -421,6 +421,18 @@ class _StaticComps(ast.NodeTransformer):
             n.args = [ast.copy_location(ast.List(elts=elts, ctx=ast.Load()), a)]
         return n
 
+    def visit_Subscript(self, n):
+        # `T[k]` with T a local known to be bound to a static sequence whose k-th element is a constant -> that constant (the rows
+        # `zip(<literal>, T)` was written out to pair the literal's elements with `T[0]`, `T[1]` .., see _zipped_literal; T may be the
+        # running totals `accumulate(w for _, w in TABLE)` that fold_static evaluates)
+        self.generic_visit(n)
+        if isinstance(n.ctx, ast.Load) and isinstance(n.value, ast.Name) and n.value.id in self.lits and isinstance(n.slice, ast.Constant) \
+                and type(n.slice.value) is int:
+            seq = self.lits[n.value.id]
+            if not isinstance(seq, _DictTable) and -len(seq.elts) <= n.slice.value < len(seq.elts) and isinstance(seq.elts[n.slice.value], ast.Constant):
+                return ast.copy_location(copy.deepcopy(seq.elts[n.slice.value]), n)
+        return n
+
     def visit_FunctionDef(self, n):
         return n            # nested functions are normalised on their own
 
@@ -2945,6 +2957,15 @@ class _Fold(ast.NodeTransformer):
         self.generic_visit(n)
         if isinstance(n.op, ast.Not) and isinstance(n.operand, ast.Constant):
             return ast.copy_location(ast.Constant(value=not n.operand.value), n)
+        return n
+
+    def visit_Attribute(self, n):
+        # `<namedtuple row display>.field` is the element at the field's position (namedtuple_rows keeps the field names on the display):
+        # `[col.width for col in TABLE]` over a table of rows, once `col` is a row
+        self.generic_visit(n)
+        fs = getattr(n.value, "_nt_fields", None)
+        if fs and isinstance(n.value, ast.Tuple) and isinstance(n.ctx, ast.Load) and n.attr in fs and len(fs) == len(n.value.elts):
+            return ast.copy_location(n.value.elts[fs.index(n.attr)], n)
         return n
 
     def visit_Subscript(self, n):
